@@ -34,7 +34,11 @@ RULE = ("genomes of 1..4 chromosomes (sizes 0..6; names where one is a prefix of
         "byte (257, 300; thorough 600) with entries on the contigs around index 255/256 and the last one, through every op; "
         "two genome objects over the same chromosomes in different orders (permutation, sort_names) alive together: a track "
         "(in memory and streamed) of one indexed with intervals or a mask of the other, and mask & mask, must give the right "
-        "chromosome's values or refuse (op xgenome). Non-trivial = "
+        "chromosome's values or refuse (op xgenome); ONE sequence object indexed "
+        "first with one genome's intervals and then with the other's (a cache keyed by the first call). Narrow coordinate "
+        "columns (int8/uint8/int16/int32, as BAM intervals or user arrays have) on genomes just longer than the dtype's range, "
+        "through every op, and a genome with a chromosome of almost 2**31 bases in front (op hugegenome, run-length tracks). "
+        "Non-trivial = "
         ">= 2 included chromosomes and some entry touches a chromosome end or position 0")
 EXHAUSTIVE = {"quick": False, "thorough": False}
 MODEL_OPS = {"seq", "lookup", "l2g", "g2l", "pileup", "mask", "merge", "clip", "extend", "windows", "sort", "extract", "location"} | c10_extra.MODEL_OPS
@@ -346,14 +350,22 @@ def _ints(a):
     return [int(x) for x in np.asarray(a).ravel()]
 
 
+def _coord_dtype(c):
+    """dtype of the coordinate columns handed to the package (narrow columns are kept as they are by the tables:
+    BAM intervals have int32 starts); the genome may be longer than the dtype's range although every local
+    coordinate fits"""
+    return np.dtype(c.get("dtype", "int64"))
+
+
 def _mk_intervals(c, stranded):
     from bionumpy.datatypes import Interval, StrandedInterval
     iv = c["iv"]
     if not iv:
         return (StrandedInterval if stranded else Interval).empty()
     names = [c["names"][x[0]] for x in iv]
-    s = np.array([x[1] for x in iv], dtype=int)
-    e = np.array([x[2] for x in iv], dtype=int)
+    dt = _coord_dtype(c)
+    s = np.array([x[1] for x in iv], dtype=dt)
+    e = np.array([x[2] for x in iv], dtype=dt)
     if stranded:
         return StrandedInterval(names, s, e, ["+" if x[3] else "-" for x in iv])
     return Interval(names, s, e)
@@ -573,7 +585,7 @@ def _call(c):
         return _obs_intervals(c, r.chromosome, r.start, r.stop)
     G = _genome(c)
     if op == "windows":
-        loc = G.get_locations(LocationEntry([c["names"][x[0]] for x in c["pts"]], np.array([x[1] for x in c["pts"]], dtype=int)))
+        loc = G.get_locations(LocationEntry([c["names"][x[0]] for x in c["pts"]], np.array([x[1] for x in c["pts"]], dtype=_coord_dtype(c))))
         w = loc.get_windows(flank=c["flank"]) if c.get("flank") is not None else loc.get_windows(window_size=c["wsize"])
         return _obs_intervals(c, w.chromosome, w.start, w.stop)
     gi = G.get_intervals(_mk_intervals(c, stranded), stranded=stranded)
